@@ -147,6 +147,13 @@ TARGETS = [
          self_bits=True, attrs={"bitstring.options.lsb0": ("opt_lsb0", "bool")}, fuel={1: "2 * len(self) + 2"}),
     dict(file="bitstring/bits.py", cls="Bits", func="_readsie", lean="readsie", params=[("pos", "int")], ret=("int", "int"),
          self_bits=True, attrs={"bitstring.options.lsb0": ("opt_lsb0", "bool")}),
+    # Array.fromfile after the file has been read into new_data; Array.reverse (the slice swaps keep len(self.data))
+    dict(file="bitstring/array_.py", cls="Array", func="fromfile", lean="array_fromfile", mode="trace", region="max_items = ",
+         params=[("n", "optint")], attrs={"self._dtype.bitlength": ("itemsize", "int")}, lens={"len(new_data)": "len_new_data"},
+         err_trace=True, no_self_len=True),
+    dict(file="bitstring/array_.py", cls="Array", func="reverse", lean="array_reverse", mode="trace", params=[],
+         attrs={"self._dtype.bitlength": ("itemsize", "int")}, lens={"len(self.data)": "len_data"}, stable_lens=["len(self.data)"],
+         no_self_len=True),
     # Bits.tofile: the chunk loop (the chunk size itself - constant or hook override - is extracted by extract_C17)
     dict(file="bitstring/bits.py", cls="Bits", func="tofile", lean="tofile_loop", mode="trace", region="for start in range",
          params=[("chunk_size", "int")]),
@@ -165,7 +172,7 @@ KNOWN_CALLS = {"self._validate_slice": ("validate_slice", ["self_len"], ["optint
 
 EXC = {"ValueError": ".value", "CreationError": ".value", "InterpretError": ".value", "IndexError": ".index",
        "ReadError": ".read", "TypeError": ".type", "Error": ".bitstring", "ByteAlignError": ".byteAlign",
-       "AssertionError": '(.internal "AssertionError")'}
+       "AssertionError": '(.internal "AssertionError")', "EOFError": '(.internal "EOFError")'}
 
 LEAN_T = {"int": "Int", "optint": "Option Int", "bool": "Bool", "optbool": "Option Bool", "slice": "Py.Slice",
           "intlist": "List Int", "trace": "List Py.Act"}
@@ -229,8 +236,6 @@ class Tr:
         """bind a raising sub-expression before the statement that contains it; returns the bound name"""
         if self.sc_depth or not self.hoist_stack:
             raise Untranslatable("raising sub-expression in a short-circuited position")
-        if self.spec.get("err_trace"):
-            raise Untranslatable("raising sub-expression in an err_trace function")
         v = self.new(base)
         self.hoist_stack[-1].append((v, term))
         return v
@@ -323,10 +328,12 @@ class Tr:
             op = {ast.Add: "+", ast.Sub: "-", ast.Mult: "*"}.get(type(n.op))
             if op:
                 return f"({a} {op} {b})", "int"
-            if isinstance(n.op, ast.FloorDiv):
-                return f"(Int.fdiv {a} {b})", "int"
-            if isinstance(n.op, ast.Mod):
-                return f"(Int.fmod {a} {b})", "int"
+            if isinstance(n.op, (ast.FloorDiv, ast.Mod)):
+                fn = "fdiv" if isinstance(n.op, ast.FloorDiv) else "fmod"
+                if isinstance(n.right, ast.Constant) and isinstance(n.right.value, int) and n.right.value != 0:
+                    return f"(Int.{fn} {a} {b})", "int"
+                # a divisor that is not a non-zero literal: ZeroDivisionError is possible, so the operation is a raising one
+                return self.hoist(f"Py.{fn}E {a} {b}", "q"), "int"
             raise Untranslatable(f"operator {type(n.op).__name__}")
         if isinstance(n, (ast.Compare, ast.BoolOp)):
             return self.cond(n, env), "bool"
@@ -350,7 +357,7 @@ class Tr:
                 k = self.key(n)
                 if k in self.spec.get("lens", {}):
                     root = k[4:-1].split(".")[0].split("[")[0]
-                    if root in self.dirty:          # a declared len(x) means: at its FIRST read (spec comment says which)
+                    if root in self.dirty and k not in self.spec.get("stable_lens", []):   # declared len(x) = value at its FIRST read
                         raise Untranslatable(f"{k} read after a statement that may have changed {root}")
                     self.len_read.add(root)
                     return self.spec["lens"][k], "int"
@@ -508,6 +515,9 @@ class Tr:
         finally:
             self.hoist_stack.pop()
         pad = "  " * ind
+        if mine and self.spec.get("err_trace"):
+            tr_ = env["__trace"][0]
+            return "".join(f"{pad}match {term} with\n{pad}| .error e_ => .error (e_, {tr_})\n{pad}| .ok {v} =>\n" for v, term in mine) + res
         return "".join(f"{pad}({term}).bind fun {v} =>\n" for v, term in mine) + res
 
     def _block1(self, stmts, env, ind):
@@ -964,6 +974,21 @@ class Tr:
         self.nloops += 1
         k = self.nloops
         name = f"{self.spec['lean']}.loop{k}"
+        # a later iteration reads after the effects of an earlier one: a length of an object the body may change must be
+        # declared stable (`stable_lens`: the effects of this function do not change that length - part of the vocabulary)
+        probe_d, probe_c, probe_r = set(self.dirty), set(self.changed), set(self.len_read)
+        self.len_read |= {"self"} | {k_[4:-1].split(".")[0].split("[")[0] for k_ in self.spec.get("lens", {})}
+        for st in ast.walk(ast.Module(body=s.body, type_ignores=[])):
+            if isinstance(st, ast.stmt):
+                self.mark_dirty(st)
+        body_changes = self.changed - probe_c
+        self.dirty, self.changed, self.len_read = probe_d, probe_c, probe_r
+        for n_ in ast.walk(ast.Module(body=s.body + ([s.test] if isinstance(s, ast.While) else []), type_ignores=[])):
+            if isinstance(n_, ast.Call) and getattr(n_.func, "id", None) == "len" and len(n_.args) == 1:
+                kk = self.key(n_)
+                root_ = kk[4:-1].split(".")[0].split("[")[0]
+                if root_ in body_changes and kk not in self.spec.get("stable_lens", []):
+                    raise Untranslatable(f"{kk} is read in a loop whose body may change {root_} (declare it in stable_lens if it cannot)")
         # loop-carried state: names assigned in the body that are bound before the loop (+ declared attrs) + the trace
         assigned = []
         for n in ast.walk(ast.Module(body=s.body, type_ignores=[])):
